@@ -16,9 +16,10 @@ ThunkTerms(f) == IF f.body.k = "ret" THEN {f.body.e} ELSE {f.body.a, f.body.b}
 HasFor(t) == CASE t.k = "for" -> TRUE
                [] t.k \in {"bind", "bindrecv", "delay"} -> \E e \in ThunkTerms(t.f) : HasFor(e)
                [] t.k = "comb" -> HasFor(t.a) \/ HasFor(t.b)
+               [] t.k = "brk" -> HasFor(t.body)
                [] OTHER -> FALSE
 Max(S) == CHOOSE x \in S : \A y \in S : y <= x
-Size(t) == CASE t.k = "for" -> 1 + Size(t.body)
+Size(t) == CASE t.k \in {"for", "brk"} -> 1 + Size(t.body)
              [] t.k \in {"bind", "bindrecv", "delay"} -> 1 + Max({Size(e) : e \in ThunkTerms(t.f)})
              [] t.k = "comb" -> 1 + Size(t.a) + Size(t.b)
              [] OTHER -> 1
